@@ -1,6 +1,7 @@
 package redis
 
 import (
+	"github.com/kubeshark/base/pkg/verifhook"
 	"sync"
 	"time"
 
@@ -23,6 +24,7 @@ func (matcher *requestResponseMatcher) SetMaxTry(value int) {
 }
 
 func (matcher *requestResponseMatcher) registerRequest(ident string, request *RedisPacket, captureTime time.Time, captureSize int) *api.OutputChannelItem {
+	verifhook.Yield("match.req.pre")
 	requestRedisMessage := api.GenericMessage{
 		IsRequest:   true,
 		CaptureTime: captureTime,
@@ -45,11 +47,13 @@ func (matcher *requestResponseMatcher) registerRequest(ident string, request *Re
 		return matcher.preparePair(&requestRedisMessage, responseRedisMessage)
 	}
 
+	verifhook.Yield("match.req.mid")
 	matcher.openMessagesMap.Store(ident, &requestRedisMessage)
 	return nil
 }
 
 func (matcher *requestResponseMatcher) registerResponse(ident string, response *RedisPacket, captureTime time.Time, captureSize int) *api.OutputChannelItem {
+	verifhook.Yield("match.res.pre")
 	responseRedisMessage := api.GenericMessage{
 		IsRequest:   false,
 		CaptureTime: captureTime,
@@ -72,6 +76,7 @@ func (matcher *requestResponseMatcher) registerResponse(ident string, response *
 		return matcher.preparePair(requestRedisMessage, &responseRedisMessage)
 	}
 
+	verifhook.Yield("match.res.mid")
 	matcher.openMessagesMap.Store(ident, &responseRedisMessage)
 	return nil
 }
